@@ -257,6 +257,65 @@ silent("C03", "trimming written as a conditional expression",
        ("sub", "rtransform.py", "        rf_array = -self._R * np.log((x + 1) / 2) + self._rmin\n        if self.trim_inf:\n            rf_array = self._convert_inf(rf_array)\n        return rf_array\n",
         "        rf_array = -self._R * np.log((x + 1) / 2) + self._rmin\n        return self._convert_inf(rf_array) if self.trim_inf else rf_array\n"))
 
+# analytic identities (E8)
+fire("C03", "reintroduce: HandyMod third derivative with 2*2**m instead of (2**m)**2", "R5.derivative-chain/rtransform.HandyModRTransform.deriv3",
+     ("sub", "rtransform.py", "                    two_m**2 * (self._m - 2) * (self._m - 1) * (1 - two_m + size_r) ** 2\n",
+      "                    2 * two_m * (self._m - 2) * (self._m - 1) * (1 - two_m + size_r) ** 2\n"))
+fire("C03", "Becke second derivative with the wrong power", "R5.derivative-chain/rtransform.BeckeRTransform.deriv2",
+     ("sub", "rtransform.py", "            return 4 * self._R / (1 - x) ** 3\n", "            return 4 * self._R / (1 - x) ** 4\n"))
+fire("C03", "Knowles first derivative loses the factor k", "R5.derivative-chain/rtransform.KnowlesRTransform.deriv",
+     ("sub", "rtransform.py", "        deriv = self._R * self._k * (qi ** (self._k - 1)) / (2**self._k - qi**self._k)\n",
+      "        deriv = self._R * (qi ** (self._k - 1)) / (2**self._k - qi**self._k)\n"))
+fire("C03", "Power transform third derivative misses (power - 2)", "R5.derivative-chain/rtransform.PowerRTransform.deriv3",
+     ("sub", "rtransform.py", "        return power * (power - 1) * (power - 2) * self._rmin * np.power(x + 1, power - 3)\n",
+      "        return power * (power - 1) * (power - 1) * self._rmin * np.power(x + 1, power - 3)\n"))
+fire("C03", "MultiExp derivative sign", "R5.derivative-chain/rtransform.MultiExpRTransform.deriv",
+     ("sub", "rtransform.py", "        return -self._R / (1 + x)\n", "        return self._R / (1 + x)\n"))
+fire("C03", "Handy power base written (x - 1): not real for non-integer m", "R5.derivative-chain/rtransform.HandyRTransform.deriv",
+     ("sub", "rtransform.py", "        dr = 2 * self._m * self._R * (1 + x) ** (self._m - 1) / (1 - x) ** (self._m + 1)\n",
+      "        dr = 2 * self._m * self._R * (1 + x) ** (self._m - 1) / (x - 1) ** (self._m + 1)\n"))
+fire("C03", "Knowles inverse takes the k-th power instead of the k-th root", "R6.inverse-undoes-forward/rtransform.KnowlesRTransform.inverse",
+     ("sub", "rtransform.py", "        return -1 + 2 * (1 - np.exp((self._rmin - r) / self._R)) ** (1 / self._k)\n",
+      "        return -1 + 2 * (1 - np.exp((self._rmin - r) / self._R)) ** self._k\n"))
+fire("C03", "Becke inverse forgets rmin in the denominator", "R6.inverse-undoes-forward/rtransform.BeckeRTransform.inverse",
+     ("sub", "rtransform.py", "        return (r - self._rmin - self._R) / (r - self._rmin + self._R)\n",
+      "        return (r - self._rmin - self._R) / (r + self._R)\n"))
+fire("C03", "Exp inverse uses rmax as the reference radius", "R6.inverse-undoes-forward/rtransform.ExpRTransform.inverse",
+     ("sub", "rtransform.py", "        return np.log(r / self._rmin) / alpha\n", "        return np.log(r / self._rmax) / alpha\n"))
+fire("C03", "both copies of the third inverse derivative changed alike", "R7.inverse-function-theorem/rtransform.BaseTransform.deriv3_inverse",
+     ("sub", "rtransform.py", "        return (3 * d2**2 - d1 * d3) / d1**5\n", "        return (2 * d2**2 - d1 * d3) / d1**5\n"),
+     ("sub", "rtransform.py", "        return (3 * d2(r) ** 2 - d1(r) * d3(r)) / self._d1(r) ** 5\n",
+      "        return (2 * d2(r) ** 2 - d1(r) * d3(r)) / self._d1(r) ** 5\n"))
+fire("C03", "second inverse derivative evaluates deriv2 at r instead of inverse(r)", "R7.inverse-function-theorem/rtransform.BaseTransform.deriv2_inverse",
+     ("sub", "rtransform.py", "        x = self.inverse(r)\n        d1 = self.deriv(x)\n        d2 = self.deriv2(x)\n        if np.any(d1 == 0):\n            raise ZeroDivisionError(\"First derivative of original transformation has 0 value\")\n        return -d2 / d1**3\n",
+      "        x = self.inverse(r)\n        d1 = self.deriv(x)\n        d2 = self.deriv2(r)\n        if np.any(d1 == 0):\n            raise ZeroDivisionError(\"First derivative of original transformation has 0 value\")\n        return -d2 / d1**3\n"))
+fire("C03", "linear map offset by rmax: end points no longer hit the codomain ends", "R8.end-point-images/rtransform.LinearFiniteRTransform.transform",
+     ("sub", "rtransform.py", "        return (1 + x) * (self._rmax - self._rmin) / 2 + self._rmin\n",
+      "        return (1 + x) * (self._rmax - self._rmin) / 2 + self._rmax\n"),
+     ("sub", "rtransform.py", "        return (2 * r - (self._rmax + self._rmin)) / (self._rmax - self._rmin)\n",
+      "        return (2 * r - (3 * self._rmax - self._rmin)) / (self._rmax - self._rmin)\n"))
+fire("C03", "MultiExp declares the codomain of the Becke map but maps x=1 to rmin - R log 1... shifted", "R8.end-point-images/rtransform.MultiExpRTransform.transform",
+     ("sub", "rtransform.py", "        rf_array = -self._R * np.log((x + 1) / 2) + self._rmin\n",
+      "        rf_array = -self._R * np.log((x + 1) / 4) + self._rmin\n"),
+     ("sub", "rtransform.py", "        return 2 * np.exp(-(r - self._rmin) / self._R) - 1\n",
+      "        return 4 * np.exp(-(r - self._rmin) / self._R) - 1\n"))
+silent("C03", "Becke derivatives spelled with repeated division", 
+       ("sub", "rtransform.py", "            return 4 * self._R / (1 - x) ** 3\n", "            return 4 * self._R / (1 - x) / (1 - x) / (1 - x)\n"))
+silent("C03", "Handy third derivative in product-rule form (the correct one)",
+       ("sub", "rtransform.py", "            * (1 + 6 * self._m * x + 2 * self._m**2 + 3 * x**2)\n",
+        "            * ((1 + x) * (1 - x) + (self._m + x) * ((self._m + 2) * (1 + x) + (self._m - 2) * (1 - x)))\n"))
+silent("C03", "Power map written with exp/log", 
+       ("sub", "rtransform.py", "        return self._rmin * np.power(x + 1, power)\n", "        return self._rmin * np.exp(power * np.log(x + 1))\n"))
+silent("C03", "Knowles transform with the 2**k factored into the base",
+       ("sub", "rtransform.py", "        rf_array = -self._R * np.log(1 - (2**-self._k) * (x + 1) ** self._k) + self._rmin\n",
+        "        rf_array = -self._R * np.log(1 - ((x + 1) / 2) ** self._k) + self._rmin\n"))
+silent("C03", "MultiExp inverse with the logarithm of 2 folded into the exponent",
+       ("sub", "rtransform.py", "        return 2 * np.exp(-(r - self._rmin) / self._R) - 1\n",
+        "        return np.exp(np.log(2) - (r - self._rmin) / self._R) - 1\n"))
+silent("C03", "HandyMod derivative denominator expanded differently",
+       ("sub", "rtransform.py", "            / (two_m * (1 - two_m + size_r) + (two_m - size_r) * (1 + x) ** self._m) ** 2\n",
+        "            / (two_m - two_m * two_m + two_m * size_r + (two_m - size_r) * (1 + x) ** self._m) ** 2\n"))
+
 # ------------------------------------------------------------------------------------------ C04
 fire("C04", "Jacobian evaluated with the second derivative", "b.weights-times-jacobian",
      ("sub", "rtransform.py", "        new_weights = self.deriv(oned_grid.points) * oned_grid.weights\n",
